@@ -64,3 +64,20 @@ Fixpoint run_commission (c : scost) (e : cm_entry) (fills : list (Q * Q)) : Q :=
 Definition fill_cost (c : scost) (f : Q * Q) : Q := fst f * snd f * sc_rate c * sc_mult c.
 Fixpoint sum_cost (c : scost) (fills : list (Q * Q)) : Q :=
   match fills with [] => 0 | f :: t => fill_cost c f + sum_cost c t end.
+
+(* FutureInfoStore.get_future_info (rqalpha/data/base_data_source/storages.py): the bundle's entry for the contract, else for its
+   underlying, overridden field by field by the configuration's entry (base.future_info) for the contract, else for the underlying.
+   Contracts and underlyings are numbered; the tables are functions. *)
+Record fover := { ov_by_money : option bool; ov_open : option Q; ov_close : option Q; ov_close_today : option Q }.
+Definition pick {A} (by_contract by_underlying : option A) : option A :=
+  match by_contract with Some x => Some x | None => by_underlying end.
+Definition opt_or {A} (o : option A) (d : A) : A := match o with Some x => x | None => d end.
+Definition apply_override (f : fcost) (o : fover) : fcost :=
+  {| fc_by_money := opt_or (ov_by_money o) (fc_by_money f); fc_mult := fc_mult f; fc_open := opt_or (ov_open o) (fc_open f);
+     fc_close := opt_or (ov_close o) (fc_close f); fc_close_today := opt_or (ov_close_today o) (fc_close_today f); fc_cmult := fc_cmult f |}.
+Definition future_schedule (dflt_c dflt_u : nat -> option fcost) (cust_c cust_u : nat -> option fover) (c u : nat) : option fcost :=
+  match pick (dflt_c c) (dflt_u u) with
+  | Some f => Some (match pick (cust_c c) (cust_u u) with Some o => apply_override f o | None => f end)
+  | None => None      (* the implementation builds the entry from the override alone; the data contract gives every underlying an entry *)
+  end.
+Definition set_at {A} (t : nat -> option A) (k : nat) (v : option A) : nat -> option A := fun x => if Nat.eqb x k then v else t x.
